@@ -836,8 +836,6 @@ Proof.
   pose proof (vrel_old _ _ u (proj2 G)) as V. rewrite L in V. unfold vrel in *. cbn [option_map] in *. rewrite E. exact V.
 Qed.
 
-Definition pending (p0 : pud) : Prop := is_owner (p_given p0) = true /\ is_owner (p_want p0) = false.
-
 Lemma tus_existing_good f s c n u mw nb p0 :
   good3 s c -> u <> 0%N -> alookup u (c_users c) = Some p0 ->
   ((forall k, fails f k = false) \/ ~ pending p0) ->
